@@ -39,8 +39,13 @@ def run(ck, a):
   ck.assumptions += ['reals for floats', 'reference mechanics validated against real mujoco each run', 'consistency (vanishing first-order term) => O(dt) drift: textbook bridge, not checked']
   cfgs = [(['h', 's'], False), (['h', 'h'], False), ([], True), (['h'], True)] if not thorough else [(['h', 's'], False), (['h', 'h'], False), ([], True), (['h'], True), (['hs'], False), (['s'], True)]
   replay = {}
+  cfgs = cfgs + [(['two-trees'], None)]
   for words, free in cfgs:
-    if free:
+    if free is None:
+      spec = models.merge_specs([models.tree_model(rng, ['h'], free_root=False, root_word='h', ortho=False, limits_p=0.0, joint_props=False),
+                                 models.tree_model(rng, ['h'], free_root=False, root_word='h', ortho=False, limits_p=0.0, joint_props=False)])
+      free = False
+    elif free:
       spec = models.tree_model(rng, words, free_root=True, ortho=False, limits_p=0.0, actuators=0, joint_props=False)
     else:
       spec = models.tree_model(rng, words[1:], free_root=False, root_word=words[0], ortho=False, limits_p=0.0, actuators=0, joint_props=False)
